@@ -163,7 +163,9 @@ type Exec struct {
 	start     time.Time
 	res       *Result
 	altbuf    []alt
+	obuf      []*Thread
 	objseq    int
+	nthreads  int
 }
 
 var ex *Exec
@@ -220,7 +222,8 @@ func (t *Thread) info() ThreadInfo {
 }
 
 func (e *Exec) newThread(parent *Thread, name, site string) *Thread {
-	t := &Thread{idx: len(e.threads), name: name, wake: make(chan int8, 1), spawnSite: site}
+	t := &Thread{idx: e.nthreads, name: name, wake: make(chan int8, 1), spawnSite: site}
+	e.nthreads++
 	if parent == nil {
 		t.id = "0"
 	} else {
@@ -259,6 +262,7 @@ func (e *Exec) threadMain(t *Thread, body func(), isRoot bool) {
 			e.finish("done")
 			return
 		}
+		e.forget(t)
 		// pass the baton
 		e.schedule(t)
 	}()
@@ -269,6 +273,19 @@ func (e *Exec) threadMain(t *Thread, body func(), isRoot bool) {
 		}
 	}
 	body()
+}
+
+// forget drops an exited thread from the scan list (long histories spawn
+// many short-lived threads).
+func (e *Exec) forget(t *Thread) {
+	for i, o := range e.threads {
+		if o == t {
+			copy(e.threads[i:], e.threads[i+1:])
+			e.threads[len(e.threads)-1] = nil
+			e.threads = e.threads[:len(e.threads)-1]
+			return
+		}
+	}
 }
 
 func (e *Exec) killingExit() {
@@ -389,7 +406,8 @@ func (e *Exec) choose(t *Thread, alts []alt) int {
 	curEnabled := first == t && !t.exited
 	for i := 1; i < n; i++ {
 		c := false
-		if alts[i].owner == first {
+		if alts[i].t == alts[0].t && alts[i].owner == first {
+			// another ready case of the same operation of the same thread
 			c = e.cfg.SelectCost
 		} else if curEnabled {
 			c = true
@@ -429,10 +447,23 @@ func (e *Exec) enabled() []alt {
 	if cur != nil && !cur.exited {
 		alts = e.threadAlts(alts, cur)
 	}
+	// the others in the order in which they arrived at their pending
+	// operation (FIFO, like a run queue): no thread is starved by the default
+	// schedule
+	others := e.obuf[:0]
 	for _, t := range e.threads {
-		if t == cur || t.exited {
+		if t == cur || t.exited || t.kind == opNone {
 			continue
 		}
+		others = append(others, t)
+	}
+	for i := 1; i < len(others); i++ {
+		for j := i; j > 0 && others[j].parkSeq < others[j-1].parkSeq; j-- {
+			others[j], others[j-1] = others[j-1], others[j]
+		}
+	}
+	e.obuf = others
+	for _, t := range others {
 		alts = e.threadAlts(alts, t)
 	}
 	// a rendezvous in which the current thread is the receiver is listed under
@@ -735,6 +766,8 @@ func Go(site string, f func()) {
 	t := e.newThread(parent, "", site)
 	t.kind = opStart
 	t.site = site
+	e.seq++
+	t.parkSeq = e.seq
 	go e.threadMain(t, f, false)
 }
 
@@ -751,6 +784,8 @@ func GoNamed(name string, f func()) {
 	t := e.newThread(e.cur, name, name)
 	t.kind = opStart
 	t.site = name
+	e.seq++
+	t.parkSeq = e.seq
 	go e.threadMain(t, f, false)
 }
 
@@ -849,6 +884,36 @@ func QuiesceTime() {
 			return
 		}
 	}
+}
+
+// Choose is an environment choice point with n alternatives, enumerated
+// exhaustively by the explorer at no deviation cost (fault positions,
+// arrival orders).
+func Choose(n int) int {
+	e := ex
+	if e == nil || e.killing || n <= 1 {
+		return 0
+	}
+	if n > 32 {
+		engineFail("Choose(%d): more than 32 alternatives", n)
+	}
+	sig := uint32(2166136261)
+	sig = (sig ^ 0xC4005E) * 16777619
+	sig = (sig ^ uint32(n)) * 16777619
+	choice := 0
+	if e.pos < len(e.cfg.Prefix) {
+		choice = e.cfg.Prefix[e.pos]
+		if choice < 0 || choice >= n {
+			e.res.Nondet = fmt.Sprintf("replay: environment choice %d out of range (%d) at point %d", choice, n, e.pos)
+			choice = 0
+		}
+	}
+	e.pos++
+	e.res.Points = append(e.res.Points, Point{N: uint8(n), Chosen: uint8(choice), Costs: 0, Sig: sig})
+	if e.cfg.Verbose {
+		e.res.Trace = append(e.res.Trace, fmt.Sprintf("[%d/%d] environment choice", choice, n))
+	}
+	return choice
 }
 
 // Obs appends to the execution's observation log.
